@@ -874,6 +874,16 @@ def check_C07(ck):
             outs.append(("h2c", "h2c %s xmd256 ro %s 51" % (tag, bytes(rng.randrange(256) for _ in range(5)).hex())))
             outs.append(("mul", "%s mul %s %x" % (tag, g.J(g.sub_pt(rng), g.lam(rng)), rng.randrange(1 << 256))))
             outs.append(("add", "%s add %s %s" % (tag, g.J(g.sub_pt(rng), g.lam(rng)), g.J(g.sub_pt(rng), g.lam(rng)))))
+        # map2_to_curve on input pairs whose SSWU images coincide or cancel (the sum needs the doubling / inverse case)
+        us7 = [K.zero, K.one] + [K.rand(rng) for _ in range(4 if not thorough else 16)]
+        if tag == "g1":
+            s7 = O.fsqrt((-O.finv(O.SSWU_Z1)) % Q)
+            if s7 is not None:
+                us7 += [s7, (-s7) % Q]
+                outs += [("map2/zero-and-exceptional", "%s map2 %s %s" % (tag, K.show(0), K.show(e_))) for e_ in (s7, (-s7) % Q)]
+        for (cl, (u0, u1)) in map_input_pairs(g, tag, us7, rng):
+            if cl != "random":
+                outs.append(("map2/" + cl, "%s map2 %s %s" % (tag, K.show(u0), K.show(u1))))
         rnd = [("random", "%s random %x" % (tag, rng.randrange(1 << 128))) for _ in range(4)]
         for c, (impl, _) in zip(rnd, ck.run(rnd, gate=False)):
             try:
@@ -1416,6 +1426,29 @@ def _compose_map(ck, g, tag, us_list, klass):
     return out, sw, imgs
 
 
+def map_input_pairs(g, tag, us, rng):
+    """(class, [u0, u1]) input pairs of map2_to_curve: random, equal, opposite, and DISTINCT inputs whose SSWU images are
+    equal / opposite (u' = +-1/(Z u): where adding the two images needs the doubling / inverse case of the group law)"""
+    K = g.K
+    Z = K.from_int(O.SSWU_Z1) if tag == "g1" else O.SSWU_Z2
+    pairs = []
+    for u in us:
+        v = K.rand(rng)
+        pairs.append(("random", [u, v]))
+        pairs.append(("u0=u1", [u, u]))
+        pairs.append(("u0=-u1", [u, K.neg(u)]))
+        if not K.is_zero(u):
+            # second preimage with the same SSWU x: u' = 1/(Z u) up to sign when g(x1) is a non-square
+            up = K.inv(K.mul(Z, u))
+            for cand in (up, K.neg(up)):
+                if g.sswu(cand) == g.sswu(u) and cand != u:
+                    pairs.append(("distinct-colliding", [u, cand]))
+                    pairs.append(("distinct-colliding-swapped", [cand, u]))
+                if g.sswu(cand) == g.CP.neg(g.sswu(u)) and cand != K.neg(u):
+                    pairs.append(("distinct-opposite", [u, cand]))
+    return pairs
+
+
 def check_C14(ck):
     rng = ck.rng
     thorough = ck.tier == "thorough"
@@ -1433,20 +1466,10 @@ def check_C14(ck):
         else:
             us += [(rng.randrange(Q), 0), (0, rng.randrange(Q))]
         singles = [[u] for u in us]
-        pairs = []
-        for u in us[:6]:
-            v = K.rand(rng)
-            pairs.append(("random", [u, v]))
-            pairs.append(("u0=u1", [u, u]))
-            pairs.append(("u0=-u1", [u, K.neg(u)]))
-            if not K.is_zero(u):
-                # second preimage with the same SSWU x: u' = 1/(Z u) up to sign when g(x1) is a non-square
-                up = K.inv(K.mul(Z, u))
-                for cand in (up, K.neg(up)):
-                    if g.sswu(cand) == g.sswu(u) and cand != u:
-                        pairs.append(("distinct-colliding", [u, cand]))
-                    if g.sswu(cand) == g.CP.neg(g.sswu(u)) and cand != K.neg(u):
-                        pairs.append(("distinct-opposite", [u, cand]))
+        pairs = map_input_pairs(g, tag, us[:6], rng)
+        if tag == "g1" and s is not None:
+            pairs += [("zero-and-exceptional", [K.zero, s]), ("zero-and-exceptional", [K.zero, (-s) % Q]), ("exceptional-both-signs", [s, (-s) % Q]),
+                      ("exceptional-twice", [s, s])]
         want1, _, imgs1 = _compose_map(ck, g, tag, singles, "map")
         for P in imgs1:
             ck.expect(C.on_curve(P), "iso-image-on-target", "iso(sswu(u))", g.A(P), "on E", "isogeny image lies on the target curve")
